@@ -39,7 +39,26 @@ def bar_len(n, d):
 def _bar_spec(bar, track, sig_msg):
     spec = {"notes": [[0, p, on, dur, vel] for p, on, dur, vel in bar["tracks"][track]], "tsigs": [], "keys": [],
             "progs": [], "ccs": [], "tail": 0, "wsplit": 0}
+    _add_extras(spec, bar, track, 0)
     return spec
+
+
+def _add_extras(spec, bar, track, t0):
+    """Messages every real chunk carries and the tokeniser is documented to ignore (key signatures, program and control
+    changes): [track, offset in bar, kind, a, b]."""
+    for tr, off, kind, a, b in bar.get("extras", []):
+        if tr != track:
+            continue
+        if kind == "key":
+            spec["keys"].append([t0 + off, a])
+        elif kind == "prog":
+            spec["progs"].append([t0 + off, 0, a])
+        else:
+            spec["ccs"].append([t0 + off, 0, a, b])
+
+
+def extras_tracks(piece):
+    return {e[0] for b in piece["bars"] for e in b.get("extras", [])}
 
 
 def whole_specs(piece):
@@ -57,12 +76,20 @@ def whole_specs(piece):
         for tr in range(nt):
             for p, on, dur, vel in bar["tracks"][tr]:
                 specs[tr]["notes"].append([0, p, on + t0, dur, vel])
+            _add_extras(specs[tr], bar, tr, t0)
         t0 += bar_len(n, d)
     total = t0
     tp = piece.get("tail_partial")
+    # A track that carries ignored messages is always made whole bars (padded to the bar line, in the whole piece and in every
+    # group built from it): silence is visible to the tokeniser only as a *trailing* rest of a track, so silence that is
+    # followed by nothing but an ignored message would be part of the piece for Sequence.split (which materialises it up to
+    # the cut) and not for the single call - two inputs that are not the same bar sequence, which is the harness's doing
+    padded_for_extras = set(piece["extras_tracks"]) if "extras_tracks" in piece else extras_tracks(piece)
     for tr in range(nt):
-        end = max([x[2] + x[3] for x in specs[tr]["notes"]] + [x[0] for x in specs[tr]["tsigs"]], default=0)
-        if piece.get("pad_tracks", [False] * nt)[tr] and end < total:
+        # `tail` is measured from the last message of the track, whatever its type
+        end = max([x[2] + x[3] for x in specs[tr]["notes"]] + [x[0] for x in specs[tr]["tsigs"]]
+                  + [x[0] for f in ("keys", "progs", "ccs") for x in specs[tr][f]], default=0)
+        if (piece.get("pad_tracks", [False] * nt)[tr] or tr in padded_for_extras) and end < total:
             specs[tr]["tail"] = total - end
         elif tp and tp[0] == tr and piece["bars"]:
             # a trailing rest that ends INSIDE the last bar (neither a note nor a cap on the bar line closes that bar)
@@ -70,6 +97,9 @@ def whole_specs(piece):
             target = total - last_len + tp[1]           # tp[1]: ticks into the last bar, on the configuration's rest grid
             if target > end and target < total:
                 specs[tr]["tail"] = target - end
+            elif target <= end < total and total - last_len <= end:
+                # an ignored message already sits at or behind the target inside the last bar: the bar is made whole instead
+                specs[tr]["tail"] = total - end
     return specs, total
 
 
@@ -80,14 +110,37 @@ def build_bars_R1(piece):
         n, d = bar["sig"]
         for tr in range(piece["ntracks"]):
             spec = _bar_spec(bar, tr, None)
-            seq = music.build_sequence(spec, bar.get("mode", "abs")) if spec["notes"] else Sequence()
+            seq = music.build_sequence(spec, bar.get("mode", "abs")) if (spec["notes"] or spec["keys"] or spec["progs"]
+                                                                        or spec["ccs"]) else Sequence()
             out[tr].append(Bar(seq, n, d))
     return out
 
 
 def build_whole(piece):
     specs, total = whole_specs(piece)
-    return [music.build_sequence(s, "abs") if (s["notes"] or s["tsigs"] or s["tail"]) else Sequence() for s in specs], total
+    return [music.build_sequence(s, "abs") if _has_content(s) else Sequence() for s in specs], total
+
+
+def _has_content(sp):
+    return bool(sp["notes"] or sp["tsigs"] or sp["tail"] or sp["keys"] or sp["progs"] or sp["ccs"])
+
+
+def r4_legal(piece, cuts):
+    """Unpadded group sequences are 'consecutive chunks of whole bars' only if every group but the last reaches into its last
+    bar: by a note there, by a trailing rest that ends inside it, or because a track is padded to the bar line. (The generator
+    only draws such pieces; the shrinker may not leave the domain either.)"""
+    nt = piece["ntracks"]
+    gt = piece.get("group_tails") or {}
+    padded = extras_tracks(piece)
+    for lo, hi in groups_of(len(piece["bars"]), cuts)[:-1]:
+        last = piece["bars"][hi - 1]
+        if padded or any(last["tracks"][tr] for tr in range(nt)):
+            continue
+        tp = gt.get(str(hi))
+        L = bar_len(*last["sig"])
+        if not tp or not (0 <= tp[0] < nt) or not (0 < tp[1] < L):
+            return False
+    return True
 
 
 def build_bars_R2(piece):
@@ -121,9 +174,10 @@ def chunks_for(piece, route, cuts):
         gt = piece.get("group_tails") or {}
         for gi_, (lo, hi) in enumerate(groups):
             sub = dict(piece, bars=piece["bars"][lo:hi], explicit_first=True, pad_tracks=[False] * nt,
+                       extras_tracks=sorted(extras_tracks(piece)),
                        tail_partial=(piece.get("tail_partial") if gi_ == len(groups) - 1 else gt.get(str(hi))))
             specs, _ = whole_specs(sub)
-            out.append([music.build_sequence(sp, "abs") if (sp["notes"] or sp["tsigs"] or sp["tail"]) else Sequence() for sp in specs])
+            out.append([music.build_sequence(sp, "abs") if _has_content(sp) else Sequence() for sp in specs])
         return out
     # R3: whole sequences cut with Sequence.split at the group boundaries; later chunks carry no signature message
     seqs, total = build_whole(_r3_piece(piece))
@@ -296,6 +350,10 @@ class TokWorld:
                     # through the harness-side interpreter only.
                     cl.reference = None
                     self.stats[f"reach_detok/reference_refused:{type(e).__name__}"] += 1
+                if cl.route == "R4" and not r4_legal(cl.piece, cl.cuts):
+                    self.foreign = "harness:groups-are-not-whole-bars"
+                    self.log.add("prepare", ci, "foreign", self.foreign)
+                    return False
                 cl.chunks = chunks_for(cl.piece, cl.route, cl.cuts)
             except core.RunTimeout:
                 raise
@@ -450,6 +508,7 @@ def gen_piece(rng, ntracks, values, pitch_range, nbars=None, tier="quick", grids
     # from the start or from the END of the bar - the same "room left in the bar" then recurs under different signatures, which
     # is where anything remembered about a rest in one signature meets the other one
     p_empty = rng.choice([0.25, 0.25, 0.25, 0.6, 0.85])
+    p_extras = rng.choice([0, 0, 0, 0.3, 0.8])
     onset_palette = [(rng.random() < 0.5, grid * rng.randrange(0, 9)) for _ in range(rng.choice([1, 2, 2]))] \
         if rng.random() < 0.4 else None
     # "sparse on the beat": a longer piece of two signatures, about every second bar empty, one or two notes per sounding bar,
@@ -501,6 +560,14 @@ def gen_piece(rng, ntracks, values, pitch_range, nbars=None, tier="quick", grids
                 notes.sort(key=lambda x: (x[1], x[0]))
             tracks.append(notes)
         bars.append({"sig": [sig[0], sig[1]], "tracks": tracks, "mode": rng.choice(["abs", "rel", "both"])})
+        if p_extras and rng.random() < p_extras:
+            ex = []
+            for _ in range(rng.randrange(1, 3)):
+                tr = rng.randrange(ntracks)
+                off = rng.choice([0, 0, grid * rng.randrange(0, max(1, L // grid))])
+                kind = rng.choice(["key", "prog", "cc", "cc"])
+                ex.append([tr, off, kind, rng.choice(music.KEYS) if kind == "key" else rng.randrange(0, 120), rng.randrange(0, 128)])
+            bars[-1]["extras"] = ex
     return {"ntracks": ntracks, "bars": bars, "explicit_first": rng.random() < 0.5,
             "pad_tracks": [rng.random() < 0.3 for _ in range(ntracks)]}
 
@@ -700,6 +767,10 @@ def _simplify(trace):
                 for j in range(len(b["tracks"][tr])):
                     nb = dict(b, tracks=b["tracks"][:tr] + [b["tracks"][tr][:j] + b["tracks"][tr][j + 1:]] + b["tracks"][tr + 1:])
                     yield with_piece(dict(piece, bars=bars[:k] + [nb] + bars[k + 1:]))
+        # no ignored messages
+        for k, b in enumerate(bars):
+            if b.get("extras"):
+                yield with_piece(dict(piece, bars=bars[:k] + [{x: y for x, y in b.items() if x != "extras"}] + bars[k + 1:]))
         # simpler signature
         for k, b in enumerate(bars):
             if b["sig"] != [4, 4]:
@@ -713,7 +784,9 @@ def _simplify(trace):
             ncl = []
             for c in clients:
                 p = c["piece"]
-                nbars = [dict(b, tracks=b["tracks"][:tr] + b["tracks"][tr + 1:]) for b in p["bars"]]
+                nbars = [dict(b, tracks=b["tracks"][:tr] + b["tracks"][tr + 1:],
+                              extras=[[e[0] - (e[0] > tr)] + e[1:] for e in b.get("extras", []) if e[0] != tr])
+                         for b in p["bars"]]
                 ncl.append(dict(c, piece=dict(p, ntracks=nt - 1, bars=nbars,
                                               pad_tracks=p["pad_tracks"][:tr] + p["pad_tracks"][tr + 1:])))
             t = dict(trace)
